@@ -74,6 +74,18 @@ fn main() {
         // acyclic
         if fn_graph::daggy::petgraph::algo::is_cyclic_directed(dag.graph()) { println!("VIOLATION (cycle): {desc}"); std::process::exit(1); }
         direction_rule(&g, es.len(), &desc);
+        // C12: no Data edge repeats an ordering implied by the other edges: without it its endpoints are disconnected
+        for k in es.len()..raw.len() {
+            let (s, t) = (raw[k].source().index(), raw[k].target().index());
+            let mut seen = vec![false; n];
+            let mut st = vec![s];
+            while let Some(x) = st.pop() {
+                if seen[x] { continue; }
+                seen[x] = true;
+                for (m, e) in raw.iter().enumerate() { if m != k && e.source().index() == x { st.push(e.target().index()); } }
+            }
+            if seen[t] { println!("VIOLATION (C12: Data edge {s}->{t} repeats an ordering already implied by the other edges {:?}): {desc}", raw.iter().map(|e| (e.source().index(), e.target().index())).collect::<Vec<_>>()); std::process::exit(1); }
+        }
     }
     // C12 family: many functions writing one type, rank ties, ranks interleaved by insertion index (n > 20 matters for
     // std's unstable sorts)
